@@ -180,7 +180,9 @@ impl Prop for C10 {
         knobs["conn_open_timeout_ms"] = json!(1000);
         knobs["keep_alive_ms"] = json!(1000);
         if rng.chance(1, 3) {
-            knobs["max_out"] = json!(rng.range(1, 5));
+            // free capacity below, around and above the number of stored addresses: the dial takes
+            // a prefix of the score order that spans several score classes
+            knobs["max_out"] = json!(*rng.pick(&[1u64, 2, 3, 4, 5, 8, 16, 30, 50]));
         }
         json!({
             "property": "C10",
